@@ -67,6 +67,11 @@ class FlowHistory(History):
         """Save the history to an HDF5 file."""
         super().save(h5_file, path=path)
 
+    @classmethod
+    def load(cls, h5_file, path="flow_history"):
+        """Load the history from an HDF5 file."""
+        return super().load(h5_file, path=path)
+
 
 @dataclass
 class SMCHistory(History):
